@@ -72,6 +72,8 @@ unreach_conflict | ok | S -> a ; U -> U U | b
 nested_cores_let_run | ok | S -> let R | run C ; R -> C | I ; C -> id lp ; I -> id ls
 nested_cores_get_invoke | ok | S -> get N semi | invoke A semi ; N -> id ; A -> id | id dot id
 nested_cores_swap | ok | S -> a X | b Y ; X -> P | Q ; Y -> P ; P -> i l ; Q -> i m
+prefix_names | ok | E -> n g n | n gt n | n gte n | gtee
+prefix_names_rev | ok | E -> n zzz n | n zz n | n z n
 selfloop_nt_parens | ok | E -> | P E Q ; P -> l ; Q -> r
 selfloop_atom_g | ok | A -> open B ; B -> A g | atom
 selfloop_open_shut | ok | X -> open X shut | open atom
